@@ -30,6 +30,7 @@ type c01cfg struct {
 	knowledge  string   // "full", "chain", "star"
 	seeds      []int
 	keyCell    string
+	c02        bool // run the C02 oracles too (termination rule, every returned peer was asked)
 	diversity  bool // configure the routing-table IP diversity filter (the query then also filters responses by IP group)
 }
 
@@ -201,6 +202,9 @@ func c01Run(x *vmc.X, cfg vmc.Cfg) {
 		resCh <- lookupOutcome{ps, err}
 	}()
 	tr := newC01Track(x, l, c.k, key, seeds)
+	if c.c02 {
+		tr.beta = c.b
+	}
 	l.onStep = tr.step
 	l.stateKey = tr.stateKey
 	var out *lookupOutcome
@@ -215,7 +219,23 @@ func c01Run(x *vmc.X, cfg vmc.Cfg) {
 	}, 300) {
 		return
 	}
-	tr.final(out)
+	if !tr.final(out) {
+		return
+	}
+	if c.c02 && out.err == nil {
+		asked := map[peer.ID]bool{}
+		for _, e := range l.net.Log {
+			if e.What == "req" {
+				asked[e.To] = true
+			}
+		}
+		for _, p := range out.peers {
+			if !asked[p] {
+				x.Failf("C02/returned-peer-never-asked", "returned peer %s was never sent the request", w.Name(p))
+				return
+			}
+		}
+	}
 	x.Obs("result %v err=%v", w.Names(out.peers), out.err)
 	x.Outcome("%v", w.Names(out.peers))
 }
@@ -239,6 +259,9 @@ type c01Track struct {
 	cut       string
 	first     bool
 	nResp     int
+	// beta > 0 enables the C02 termination oracle: at a completed/starvation terminate event the beta
+	// nearest learned non-failed peers have answered
+	beta int
 }
 
 func newC01Track(x *vmc.X, l *lh, k int, key string, seeds []peer.ID) *c01Track {
@@ -291,6 +314,9 @@ func (t *c01Track) step() bool {
 			if t.termStep < 0 {
 				t.termStep = t.l.events[t.evPos].step
 				t.cut = t.l.deliveredKey()
+				if t.beta > 0 && !t.checkTermination(ev.Terminate.Reason.String()) {
+					return false
+				}
 				if t.nResp != 1+len(t.answered)+len(t.failed) {
 					x.Failf("C01/event-count", "%d response events before termination, expected 1 (seeds) + %d answers + %d failures", t.nResp, len(t.answered), len(t.failed))
 					return false
@@ -349,6 +375,42 @@ func (t *c01Track) step() bool {
 				return false
 			}
 		}
+	}
+	return true
+}
+
+func (t *c01Track) checkTermination(reason string) bool {
+	x, w := t.x, t.l.w
+	if reason != "completed" && reason != "starvation" {
+		x.Failf("C02/termination-reason", "uncancelled lookup terminated with reason %q", reason)
+		return false
+	}
+	var cand []peer.ID
+	for p := range t.learned {
+		if !t.failed[p] {
+			cand = append(cand, p)
+		}
+	}
+	cand = sim.SortByDistance(cand, t.key)
+	unanswered := 0
+	for _, p := range cand {
+		if _, ok := t.answered[p]; !ok {
+			unanswered++
+		}
+	}
+	nb := t.beta
+	if nb > len(cand) {
+		nb = len(cand)
+	}
+	for _, p := range cand[:nb] {
+		if _, ok := t.answered[p]; !ok && reason == "completed" {
+			x.Failf("C02/terminated-too-early", "lookup completed although %s, one of the beta=%d nearest learned non-failed peers %v, has not answered", w.Name(p), t.beta, w.Names(cand[:nb]))
+			return false
+		}
+	}
+	if reason == "starvation" && unanswered > 0 {
+		x.Failf("C02/starvation-with-unasked-peers", "lookup ended by starvation but %d learned non-failed peers have not answered", unanswered)
+		return false
 	}
 	return true
 }
